@@ -103,7 +103,7 @@ def ns_available():
         return False
 
 
-def run_ns(stage, uid, user=None, euid=None):
+def run_ns(stage, uid, user=None, euid=None, by_name=False, no_out=False):
     """run the real binary in a private mount namespace with the staged trees at the real paths; returns the set of ORIGIN markers"""
     out = os.path.join(stage, 'out')
     if user is None:
@@ -120,7 +120,10 @@ def run_ns(stage, uid, user=None, euid=None):
              + (f'setpriv --reuid={uid} --regid={uid} --clear-groups ' if uid != 0 and euid is None else '')
              # real and effective uid differ (a set-uid helper): the invoking — real — user's directory is the one to read
              + (f'setpriv --ruid={uid} --euid={euid} --regid={uid} --clear-groups ' if euid is not None else '')
-             + f'{stage}/quadlet-rs ' + ('--user ' if user else '') + f'--dry-run --no-kmsg-log {out}')
+             # the mode can also be chosen by the name the generator is started under (systemd starts …/user-generators/…), and a
+             # dry run needs no output directory
+             + (f'{stage}/quadlet-rs ' + ('--user ' if user else '') if not by_name else f'{stage}/podman-user-generator ')
+             + '--dry-run --no-kmsg-log' + ('' if no_out else f' {out}'))
     p = subprocess.run(['unshare', '-m', 'sh', '-c', inner], capture_output=True, timeout=60)
     so = p.stdout.decode('utf-8', 'replace')
     return p.returncode, set(re.findall(r'^Environment=ORIGIN=(.*)$', so, re.M)), p.stderr.decode('utf-8', 'replace')
@@ -144,6 +147,7 @@ def oracle(ctx):
         stage = tempfile.mkdtemp(prefix='qverif-c14-', dir='/tmp')
         os.chmod(stage, 0o755)
         shutil.copy(core.BIN, os.path.join(stage, 'quadlet-rs'))
+        os.symlink('quadlet-rs', os.path.join(stage, 'podman-user-generator'))
         tree = gen_tree(rnd)
         marks = {}
 
@@ -189,8 +193,9 @@ def oracle(ctx):
         uid = rnd.choice([1001, 2002, 7])
         # the mode (--user) and the invoking uid are separate dimensions: uid 0 runs a user generator too (user@0.service)
         other = rnd.choice([u for u in (1001, 2002, 7, 1000) if u != uid])
-        return uid, run_ns(stage, 0, False), run_ns(stage, uid, True), run_ns(stage, 0, True), (other, run_ns(stage, uid, True, euid=other))
-    for (stage, tree, marks), (uid, r0, ru, ru0, (other, rue)) in zip(cases, e2e.pmap(run, cases, workers=8)):
+        no_out = rnd.random() < 0.6
+        return uid, run_ns(stage, 0, False), run_ns(stage, uid, True), run_ns(stage, 0, True), (other, run_ns(stage, uid, True, euid=other)), (no_out, run_ns(stage, uid, True, by_name=True, no_out=no_out))
+    for (stage, tree, marks), (uid, r0, ru, ru0, (other, rue), (no_out, run_name)) in zip(cases, e2e.pmap(run, cases, workers=8)):
         res.oracle_evals += 1
         fails = []
         want_root = {t for t, (lab, d) in marks.items() if lab in ('distro', 'run') or (lab == 'adm' and not (d == 'users' or d.startswith('users/')))}
@@ -206,6 +211,8 @@ def oracle(ctx):
             fails.append(f'the user generator invoked by uid 0 (exit {ru0[0]}) read {sorted(ru0[1])}, permitted and expected {sorted(want_user0)}')
         if rue[0] not in (0, 1) or rue[1] != want_user:
             fails.append(f'the user generator invoked by uid {uid} with effective uid {other} (exit {rue[0]}) read {sorted(rue[1])}, permitted and expected {sorted(want_user)} {rue[2][-200:]}')
+        if run_name[0] not in (0, 1) or run_name[1] != want_user:
+            fails.append(f'the generator started as podman-user-generator by uid {uid} (--dry-run, {"no output directory" if no_out else "with output directory"}; exit {run_name[0]}) read {sorted(run_name[1])}, permitted and expected {sorted(want_user)} {run_name[2][-200:]}')
         for f in fails:
             res.oracle_failures.append(dict(op='namespace-run', input=dict(tree=tree, uid=uid), impl_output=dict(root=sorted(r0[1]), user=sorted(ru[1])), oracle_expectation=f))
         shutil.rmtree(stage, ignore_errors=True)
